@@ -64,8 +64,8 @@ MUTANTS = [
          old="                kt = CPTensor((None, factors)).cp_copy()", new="                kt = CPTensor((None, factors))"),
     dict(id="m15_fixed_modes", prop="C15", file="tensorly/decomposition/_cp.py", note="revert of fix: fixed_modes.remove on the caller's list",
          old="    else:\n        fixed_modes = list(fixed_modes)\n\n    if fixed_modes == list(range(tl.ndim(tensor))):", new="\n    if fixed_modes == list(range(tl.ndim(tensor))):"),
-    dict(id="m15_rpca_mask_inplace", prop="C15", file="tensorly/decomposition/robust_decomposition.py", note="robust_pca converts the mask in place when it already has the right dtype",
-         old="        mask = T.tensor(mask, **T.context(X))", new="        mask = mask if getattr(mask, 'dtype', None) == X.dtype else T.tensor(mask, **T.context(X))\n        mask *= 1"),
+    dict(id="m15_rpca_mask_inplace", prop="C15", file="tensorly/decomposition/robust_decomposition.py", note="robust_pca zeroes the unobserved entries of the caller's X in place (they are never read afterwards)",
+         old="        mask = T.tensor(mask, **T.context(X))", new="        mask = T.tensor(mask, **T.context(X))\n        X *= mask"),
     dict(id="m15_parafac_mask_restore", prop="C15", file="tensorly/decomposition/_cp.py", note="parafac imputes masked entries into the caller's tensor and restores it only on normal return",
          old=None, new=None, dynamic="parafac_mask_restore"),
 ]
@@ -73,11 +73,11 @@ MUTANTS = [
 
 def _dynamic(kind, src):
     if kind == "random_cp_orth":
-        old = "    rng = T.check_random_state(random_state)\n    factors = [\n        T.tensor(rng.random_sample((s, rank)), **context) for s in shape\n    ]"
-        if old not in src:
+        old = "    if orthogonal:\n        factors = [T.qr(factor)[0] for factor in factors]\n\n    if full:\n        return cp_to_tensor((weights, factors))"
+        if src.count(old) != 1:
             return None
-        new = ("    rng = T.check_random_state(random_state)\n    if orthogonal:\n        rng = T.check_random_state(None)\n    factors = [\n"
-               "        T.tensor(rng.random_sample((s, rank)), **context) for s in shape\n    ]")
+        new = ("    if orthogonal:\n        factors = [T.qr(factor + 1e-9 * np.random.random_sample(T.shape(factor)))[0] for factor in factors]\n\n"
+               "    if full:\n        return cp_to_tensor((weights, factors))")
         return src.replace(old, new)
     if kind == "parafac_mask_restore":
         a = "    rec_errors = []\n    norm_tensor = tl.norm(tensor, 2)\n    if l2_reg:"
